@@ -82,6 +82,22 @@ def gen(seed, idx, tier):
         n_probes=2,
         gamma=rnd.choice([0.0, 0.1, 1.0]),
     )
+    rh = substream(seed, idx, "c08-huge-mesh")
+    if rh.random() < 0.03 and not screening:
+        # a mesh of more than 2^14 edges (5600+ sites): whatever evaluates the applied potential, the currents
+        # or the phases in batches / blocks only does so for large problems; few steps, uniform field
+        scn["device"]["film"] = {"kind": "box", "w": 12.1, "h": 12.2, "npts": 120}
+        scn["device"]["holes"] = []
+        scn["device"]["mesh"] = {"max_edge_length": rh.choice([0.3, 0.3, 0.25]), "smooth": 0}
+        if scn["drive"]["field"]["kind"] not in ("const", "const_param", "plain"):
+            scn["drive"]["field"] = {"kind": "const", "B": scn["drive"]["field"].get("B") or 0.2 * scen.FIELD_FACTOR[scn["options"]["field_units"]]}
+        scn["options"]["dt_init"] = 1e-3  # cells of 0.3 xi: the explicit step must stay below its stability bound
+        scn["options"]["dt_max"] = max(scn["options"].get("dt_max", 0.1), 1e-3) if scn["options"].get("adaptive") else 0.1
+        scn["options"]["solve_time"] = scen.r3(scn["options"]["dt_init"] * 3)
+        scn["options"]["skip_time"] = 0.0
+        scn["meta"]["steps"] = 3
+        scn["meta"]["huge_mesh"] = True
+        scn.pop("device_history", None)
     if scn["options"].get("terminal_psi", 0.0) not in (0.0, None):
         # with a non-zero pinned value the additive constant of mu (left to rounding by the
         # singular Neumann solve) becomes physically relevant: not a statement about units
